@@ -80,8 +80,22 @@ pub fn op_pkt(p: &[u8]) -> String {
         Some(pl) => range_in(p, pl),
         None => "none".to_string(),
     };
+    // the values returned for adaptation_field_control and transport_scrambling_control must
+    // carry the bits of that field only: a packet that differs in the OTHER bits of header byte 3
+    // (other field, continuity counter) must yield values that compare equal
+    let (aceq, tsceq) = {
+        let mut q = p.to_vec();
+        q[3] ^= 0xcf; // flips scrambling bits and continuity counter, keeps adaptation_field_control
+        let mut r = p.to_vec();
+        r[3] ^= 0x3f; // flips adaptation_field_control and continuity counter, keeps scrambling bits
+        match (Packet::try_new(&q), Packet::try_new(&r)) {
+            (Some(pq), Some(pr)) => (pq.adaptation_control() == ac, pr.transport_scrambling_control() == tsc),
+            _ => (false, false),
+        }
+    };
+    let acdbg = format!("{:?}", ac);
     format!(
-        "tei={} pusi={} prio={} pid={} scr={} scheme={} afc={} cc={} af={} pl={}",
+        "tei={} pusi={} prio={} pid={} scr={} scheme={} afc={} cc={} af={} pl={} aceq={} tsceq={} acdbg={}",
         fb(pk.transport_error_indicator()),
         fb(pk.payload_unit_start_indicator()),
         fb(pk.transport_priority()),
@@ -91,7 +105,10 @@ pub fn op_pkt(p: &[u8]) -> String {
         afc,
         pk.continuity_counter().count(),
         af,
-        pl
+        pl,
+        fb(aceq),
+        fb(tsceq),
+        acdbg
     )
 }
 
@@ -263,33 +280,20 @@ fn f_trick(t: DsmTrickMode) -> String {
 
 pub fn f_parsed(c: &PesParsedContents<'_>, rest: &[u8]) -> String {
     let pl = c.payload();
-    // PesExtension keeps its slice private: its extent is [pes_crc_end, 3+hdl), recomputed here
-    // from the flags only when the accessor returned Ok.
+    // PesExtension keeps its slice private; its derived Debug prints the bytes. The slice must be
+    // the tail of the optional header (it ends at 3 + PES_header_data_length): it is located by
+    // its length and compared byte for byte with the header bytes at that place.
     let extn = match c.pes_extension() {
-        Ok(_) => {
-            let f = rest[1];
-            let mut a = 3usize;
-            a += match f >> 6 {
-                2 => 5,
-                3 => 10,
-                _ => 0,
-            };
-            if f & 0x20 != 0 {
-                a += 6
+        Ok(e) => {
+            let dbg = format!("{:?}", e);
+            let inner = dbg.split('[').nth(1).and_then(|s| s.split(']').next()).unwrap_or("");
+            let bytes: Vec<u8> = inner.split(',').filter_map(|x| x.trim().parse::<u8>().ok()).collect();
+            let end = 3 + rest[2] as usize;
+            if bytes.len() <= end && end <= rest.len() && rest[end - bytes.len()..end] == bytes[..] {
+                format!("ok:{}+{}", end - bytes.len(), bytes.len())
+            } else {
+                format!("ok:elsewhere:{}", hex(&bytes))
             }
-            if f & 0x10 != 0 {
-                a += 3
-            }
-            if f & 0x08 != 0 {
-                a += 1
-            }
-            if f & 0x04 != 0 {
-                a += 1
-            }
-            if f & 0x02 != 0 {
-                a += 2
-            }
-            format!("ok:{}+{}", a, 3 + rest[2] as usize - a)
         }
         Err(e) => f_pes_err(&e),
     };
